@@ -198,6 +198,24 @@ pub fn run(suite: &str, a: &[&str]) -> Option<String> {
             let (op, l, r) = plane_sector_parts(s, w);
             format!("{} {} {} {} {}", op, l.x, l.y, r.x, r.y)
         }
+        // sec_ctor cx cy d: Sector/Arc::with_center((cx,cy), d, ..) and center() of it; center() of the shape with
+        // (cx,cy) as top-left
+        "sec_ctor" => {
+            let (c, d) = (pt(a[0], a[1]), u(a[2]));
+            let (st, sw) = (Angle::from_degrees(10.0), Angle::from_degrees(400.0));
+            let s = Sector::with_center(c, d, st, sw);
+            let ar = Arc::with_center(c, d, st, sw);
+            let s2 = Sector::new(c, d, st, sw);
+            let a2 = Arc::new(c, d, st, sw);
+            if s.angle_start != st || s.angle_sweep != sw || ar.angle_start != st || ar.angle_sweep != sw {
+                return Some("ANGLES-NOT-KEPT".into());
+            }
+            format!(
+                "S {} {} {} C {} {} C0 {} {} A {} {} {} C {} {} C0 {} {}",
+                s.top_left.x, s.top_left.y, s.diameter, s.center().x, s.center().y, s2.center().x, s2.center().y,
+                ar.top_left.x, ar.top_left.y, ar.diameter, ar.center().x, ar.center().y, a2.center().x, a2.center().y
+            )
+        }
         "sec_offset" => {
             let s = Sector::new(pt(a[0], a[1]), u(a[2]), Angle::zero(), Angle::from_degrees(90.0)).offset(i(a[3]));
             format!("{} {} {}", s.top_left.x, s.top_left.y, s.diameter)
@@ -412,6 +430,47 @@ pub fn search(suite: &str, a: &[&str]) -> Option<String> {
                 b += stride;
             }
             format!("OK {} worst_eps={:.3} (hypothesis eps {})", n, worst, eps)
+        }
+        // p_sec_ctor x y d A S: the constructors and accessors of Sector and Arc against each other and against Circle /
+        // the bounding box: with_center(center()) and from_circle(to_circle()) are the identity (odd and even d),
+        // center() = bounding_box().center() = Circle's centre = top_left + (d-1)/2 (floor), with_center(c).center() = c
+        "p_sec_ctor" => {
+            let (tl, d) = (pt(a[0], a[1]), u(a[2]));
+            let (st, sw) = (ang(a[3]), ang(a[4]));
+            let s = Sector::new(tl, d, st, sw);
+            let ar = Arc::new(tl, d, st, sw);
+            let c = Circle::new(tl, d);
+            let want_c = tl + Point::new((d.saturating_sub(1) / 2) as i32, (d.saturating_sub(1) / 2) as i32);
+            if s.center() != want_c || ar.center() != want_c || c.center() != want_c || s.bounding_box().center() != want_c || ar.bounding_box().center() != want_c {
+                return Some(format!("FAIL class=ctor_center sector {:?} arc {:?} circle {:?} expected {:?}", s.center(), ar.center(), c.center(), want_c));
+            }
+            if Sector::with_center(s.center(), d, st, sw) != s {
+                return Some(format!("FAIL class=ctor_with_center Sector::with_center(center()) = {:?} != {:?}", Sector::with_center(s.center(), d, st, sw), s));
+            }
+            if Arc::with_center(ar.center(), d, st, sw) != ar {
+                return Some(format!("FAIL class=ctor_with_center Arc::with_center(center()) = {:?} != {:?}", Arc::with_center(ar.center(), d, st, sw), ar));
+            }
+            if Sector::with_center(tl, d, st, sw).center() != tl || Arc::with_center(tl, d, st, sw).center() != tl {
+                return Some("FAIL class=ctor_with_center with_center(c).center() != c".into());
+            }
+            if Sector::with_center(tl, d, st, sw).top_left != Circle::with_center(tl, d).top_left || Arc::with_center(tl, d, st, sw).top_left != Circle::with_center(tl, d).top_left {
+                return Some("FAIL class=ctor_with_center differs from Circle::with_center".into());
+            }
+            if s.to_circle() != c || ar.to_circle() != c {
+                return Some("FAIL class=ctor_to_circle".into());
+            }
+            if Sector::from_circle(s.to_circle(), st, sw) != s || Arc::from_circle(ar.to_circle(), st, sw) != ar {
+                return Some("FAIL class=ctor_from_circle".into());
+            }
+            if s.bounding_box() != c.bounding_box() || ar.bounding_box() != c.bounding_box() {
+                return Some("FAIL class=ctor_bounding_box".into());
+            }
+            // the points of a with_center sector are those of the sector built from the top-left
+            let w = Sector::with_center(s.center(), d, st, sw);
+            if d <= 40 && !w.points().eq(s.points()) {
+                return Some("FAIL class=ctor_with_center points differ".into());
+            }
+            "OK 1".into()
         }
         // p_sec_far x y d A S: probes far outside the bounding box but inside the i32-exact range of the distance
         // computation (|2p - center_2x| <= 32767 per component: Coq probe_ok) are rejected by Sector::contains
